@@ -112,7 +112,37 @@ def model_lines(ctx, es: Sequence[ast.AST]) -> List[str]:
         fuel = max(FUEL_MIN, FUEL_PER_NODE * node_count(e))
         rows.append([str(fuel), "0", bridge.to_sx(e)])
     out = ctx.driver.call("simp", rows)
+    crosscheck(ctx, es, rows, out)
     return [("CRASH" if o.startswith("CRASH") else o) for o in out]
+
+
+_xchecked = set()
+
+
+def crosscheck(ctx, es, rows, out, want: int = 12):
+    """Re-evaluate a sample of the driver's answers inside Coq (once per run)."""
+    import core
+
+    if ctx.prop in _xchecked:
+        return
+    _xchecked.add(ctx.prop)
+    pairs = []
+    for e, row, o in zip(es, rows, out):
+        if node_count(e) > 28 or has_raw(e):
+            continue
+        if o.startswith("OK "):
+            _, c, sx = o.split(" ", 2)
+            rhs = "Ok (%s, %s%%nat)" % (bridge.sx_to_coq(bridge.parse_sx(sx)), c)
+        elif o == "INDEXERR":
+            rhs = "IndexErr"
+        else:
+            continue
+        # spread the sample over the run: take every k-th eligible case
+        pairs.append(("simplify %s%%nat 0%%nat %s" % (row[0], bridge.to_coq(e)), rhs))
+    if len(pairs) > want:
+        step = len(pairs) // want
+        pairs = pairs[::step][:want]
+    core.coq_crosscheck(ctx, ctx.prop, "From FA.Base Require Import PyAst Value Traverse Names.\nFrom FA.Model Require Import Simplify.", pairs)
 
 
 # ---------------------------------------------------------------- reference interpreter
